@@ -30,3 +30,66 @@ theorem flatMap_range_get {α} (br w : Nat) (f : Nat → Nat → α) (b j : Nat)
       simp [hj]
 
 end PV.Multi
+
+namespace PV.Multi
+
+theorem flatMap_blocks_length {α} (br w : Nat) (blk : Nat → List α) (hlen : ∀ b, (blk b).length = w) :
+    ((List.range br).flatMap blk).length = br * w := by
+  induction br with
+  | zero => simp
+  | succ k ih =>
+    rw [List.range_succ, List.flatMap_append, List.length_append, ih]
+    simp [hlen, Nat.succ_mul]
+
+/-- indexing into a concatenation of `br` blocks of equal length `w` -/
+theorem flatMap_blocks_get {α} (br w : Nat) (blk : Nat → List α) (hlen : ∀ b, (blk b).length = w)
+    (b s : Nat) (hb : b < br) (hs : s < w) :
+    ((List.range br).flatMap blk)[b * w + s]? = (blk b)[s]? := by
+  induction br with
+  | zero => omega
+  | succ k ih =>
+    rw [List.range_succ, List.flatMap_append]
+    by_cases hbk : b < k
+    · have hlt : b * w + s < k * w := by
+        calc b * w + s < b * w + w := by omega
+          _ = (b + 1) * w := by rw [Nat.succ_mul]
+          _ ≤ k * w := Nat.mul_le_mul_right w hbk
+      rw [List.getElem?_append_left (by rw [flatMap_blocks_length _ _ _ hlen]; exact hlt)]
+      exact ih hbk
+    · have hbe : b = k := by omega
+      subst hbe
+      rw [List.getElem?_append_right (by rw [flatMap_blocks_length _ _ _ hlen]; omega),
+        flatMap_blocks_length _ _ _ hlen]
+      simp
+
+/-- one block row of the global observability matrix -/
+def blockRow (nref : Nat) (nmov : List Nat) (ii : Nat) : List RowSrc :=
+  ((List.range nref).map fun k => RowSrc.ref (ii * nref + k)) ++ movBlocks ii 0 nmov
+
+theorem movBlocks_length (ii jj : Nat) (l : List Nat) : (movBlocks ii jj l).length = l.sum := by
+  induction l generalizing jj with
+  | nil => simp [movBlocks]
+  | cons x xs ih => simp [movBlocks, ih]
+
+theorem blockRow_length (nref : Nat) (nmov : List Nat) (ii : Nat) :
+    (blockRow nref nmov ii).length = nref + nmov.sum := by
+  simp [blockRow, movBlocks_length]
+
+theorem allRows_eq (br nref : Nat) (nmov : List Nat) :
+    allRows br nref nmov = (List.range br).flatMap (blockRow nref nmov) := rfl
+
+/-- every roving offset `t < Σ nmov` is `(Σ_{j<jj} nmov_j) + k` for exactly the setup `jj` it falls into -/
+theorem roving_cover : ∀ (nmov : List Nat) (t : Nat), t < nmov.sum →
+    ∃ jj nm k, nmov[jj]? = some nm ∧ k < nm ∧ t = (nmov.take jj).sum + k := by
+  intro nmov
+  induction nmov with
+  | nil => intro t ht; simp at ht
+  | cons x xs ih =>
+    intro t ht
+    by_cases hx : t < x
+    · exact ⟨0, x, t, by simp, hx, by simp⟩
+    · have : t - x < xs.sum := by simp at ht; omega
+      obtain ⟨jj, nm, k, h1, h2, h3⟩ := ih (t - x) this
+      exact ⟨jj + 1, nm, k, by simpa using h1, h2, by simp [List.take_succ_cons]; omega⟩
+
+end PV.Multi
